@@ -155,6 +155,28 @@ union UO extends UC
     example inherited
         s = full
 
+struct Nested
+    "void tags two levels below the examples that embed this one"
+    pick nb.Funion
+    uc UC
+    nuc UC?
+    example default
+        pick = fa
+        uc = v
+    example second
+        pick = default
+        uc = v
+        nuc = v
+
+struct Wrapper
+    n Nested
+    ln List(Nested)
+    mn Map(String, Nested)
+    example default
+        n = default
+        ln = [default, second]
+        mn = {"k": second}
+
 struct Holder
     uc UC
     uo UO = v
@@ -505,7 +527,12 @@ def run(tier, seed):
     nbad = 0
     for t in paramspace.valid_param_types('thorough'):
         for via_alias in (False, True):
-            for v in bad_literals(t):
+            extra_lits = []
+            if t.kind == 'Float32':
+                # the band between the bound both sides use today (3.40282e38) and the largest IEEE single: the reference leaves it open, but
+                # compiler and generated class must still agree on it
+                extra_lits = [3.4028234e38, 3.4028234663852886e38, -3.4028234e38, 3.40283e38, 3.402820001e38]
+            for v in list(bad_literals(t)) + extra_lits:
                 items.append(('disagree', t, v, via_alias))
                 nbad += 1
     r.bounds['invalid_literals_checked_for_compiler_runtime_agreement'] = nbad
